@@ -149,10 +149,10 @@ CHECKS["C09"] = {
              "case = schedule; non-trivial = some task had to wait for the message mutex. distinct = distinct scenario+seed / (scenario, trace)"),
     "assumptions": ["datastore operations are individually atomic"],
     "units": [
-        {"pkg": _SS, "run": "^TestVerif_C09_(Parallel|TransientReadFailure)", Q: {"timeout": 600}, T: {"timeout": 3400, "shards": 4}},
+        {"pkg": _SS, "run": "^TestVerif_C09_(Parallel|TransientReadFailure|DevicesDoNotShareKeyStreams)", Q: {"timeout": 600}, T: {"timeout": 3400, "shards": 4}},
         {"pkg": _SS, "run": "^TestVerif_C09_Controlled", "inst": ["pkg/secretstore/secret_store_messages.go"], Q: {"timeout": 600}, T: {"timeout": 3400, "shards": 8}},
     ],
-    "mandatory_labels": {"all": ["parallel/overlapping-sends", "parallel/several-groups", "controlled/dfs-schedules", "controlled/contended-lock", "parallel/read-back", "controlled/read-back", "controlled/first-use", "read-fault/fired-while-sharing-the-key", "read-fault/caller-gave-up-during-a-send"]},
+    "mandatory_labels": {"all": ["parallel/overlapping-sends", "parallel/several-groups", "controlled/dfs-schedules", "controlled/contended-lock", "parallel/read-back", "controlled/read-back", "controlled/first-use", "read-fault/fired-while-sharing-the-key", "read-fault/caller-gave-up-during-a-send", "two-devices-same-counters"]},
 }
 
 CHECKS["C10"] = {
@@ -451,7 +451,7 @@ _ADDED6 = {
     "C06": "Recorded responder frames replayed to a requester that asks for the same account again. Signatures ground against small-order keys. Two or three honest sessions between three accounts alive at once in one process, their frames delivered one at a time in generated interleavings (crossing requests included): all must complete.",
     "C07": "Contacts whose key is not a point of the curve.",
     "C08": "Group-context layer with an undecodable entry inside a delivered batch; the receiving device may be a second device of the sender's own account (multi-member group or account group); in a quarter of the cases the sender's announcement arrives while the receiver's activation is held in its catch-up.",
-    "C09": "A further receiving device with a key window of 3 reads the envelopes in the order they were handed out (retrying after every success): every one of them must open in the end. `TestVerif_C09_TransientReadFailure`: between two bursts of sends a call touching the own chain-key record (share the key, record the group, send) meets failing reads, or the caller of one send gives up (context cancelled) while the send is under way.",
+    "C09": "A further receiving device with a key window of 3 reads the envelopes in the order they were handed out (retrying after every success): every one of them must open in the end. `TestVerif_C09_TransientReadFailure`: between two bursts of sends a call touching the own chain-key record (share the key, record the group, send) meets failing reads, or the caller of one send gives up (context cancelled) while the send is under way. `TestVerif_C09_DevicesDoNotShareKeyStreams`: two devices of a group seal the same payloads under the same counters; the sealed bytes must differ.",
     "C10": "After restart the subject store must also open its own envelopes handed out before the stop (read-back path).",
     "C11": "Derivations are also asked for public keys nobody can hold (byte strings that are not curve points, points of small order): refused, or unrelated across accounts and keys.",
     "C12": "Descriptors are derived from every accepted way of holding a multi-member group in each case, including invitations that spell out the optional sign_pub / link_key fields.",
